@@ -252,3 +252,9 @@ Proof.
     pose proof (with_predicates_total (rows_of rg_counts chosen) (map (eval_pred nullmod) preds) selection Hfit) as Ht.
     destruct (with_predicates _ _ selection); [discriminate|contradiction].
 Qed.
+
+(* non-vacuity: a concrete plan (two row groups, run-length selection, one predicate, offset, limit) *)
+Example plan_read_example :
+  plan_read 3 [5; 4]%Z [0; 1] (Some (Sels (from_iter [(false, 3); (true, 2); (false, 4)])))
+    [{| p_kind := 0; p_1 := 2; p_2 := 0 |}] (Some 1) (Some 2) = Some [5; 7]%Z.
+Proof. vm_compute. reflexivity. Qed.
